@@ -2,6 +2,7 @@
 Engine wsim + crash-image enumeration (DESIGN.md 4, C14).  Level: fault_enumeration - for every sampled
 create/append session the crash points of its recorded write stream are enumerated exhaustively at byte
 granularity (+ 'a predecessor of the last write was lost' variants)."""
+import json
 from simkit import gen, rw
 from simkit.device import SimFS, crash_images, write_ops
 from simkit.prng import Rng
@@ -54,17 +55,75 @@ def _hijack_case(rng: Rng, tier: str):
         a = ref7z.read(img)
         if not a.header_packs:
             return None
+        if rng.sub("crc0").chance(0.5):
+            # the unpacked header's CRC32 made exactly 0 by choosing the last two characters of the last name: a stored
+            # checksum that is falsy
+            import zlib
+
+            H = a.header_bytes
+            enc = names[-1].encode("utf-16-le")
+            p = H.rfind(enc)
+            fixed = None
+            for attempt in range(40):
+                if p < 0:
+                    break
+                H2 = gen.patch_crc32(H, p + len(enc) - 4, 0)
+                u1, u2 = int.from_bytes(H2[p + len(enc) - 4:p + len(enc) - 2], "little"), int.from_bytes(H2[p + len(enc) - 2:p + len(enc)], "little")
+                if all(0x20 < u < 0xD800 or 0xE000 <= u < 0xFFFE for u in (u1, u2)) and 0x2F not in (u1, u2) and 0x5C not in (u1, u2):
+                    fixed = names[-1][:-2] + chr(u1) + chr(u2)
+                    break
+                # re-roll an earlier character of the name and try again
+                nm = names[-1]
+                names[-1] = nm[:3] + chr(r.randrange(0x400, 0x9FFF)) + nm[4:]
+                H = H[:p] + names[-1].encode("utf-16-le") + H[p + len(enc):]
+                enc = names[-1].encode("utf-16-le")
+            if fixed is not None:
+                names[-1] = fixed
+                base["ops"][-1]["name"] = fixed
+                fs = SimFS(buffer_size=knobs["bufsize"])
+                with Seams(fs=fs, blocksize=knobs["block"], memlimit=knobs["chunk"], clock=SimClock(tick=0.001), rand=SimRandom(Rng(seed, "iv"))):
+                    rw.run_write_session(fs, base, "stream", knobs["bufsize"])
+                img = fs.get(rw.SIM_PATH).snapshot()
+                a = ref7z.read(img)
+                if not a.header_packs or zlib.crc32(a.header_bytes) != 0:
+                    return None
         lo, hi = a.header_packs[-1]
         packed = bytearray(img[32 + lo:32 + hi])
-        if len(packed) < 16 or packed[0] != 0x01:  # LZMA2 uncompressed chunk: any payload byte may change and it still decodes
+        if len(packed) < 16:
             return None
-        off = r.randrange(8, len(packed) - 2)
-        packed[off] ^= 1 << r.randrange(8)
+        if packed[0] == 0x01 and r.chance(0.5):
+            # LZMA2 uncompressed chunk: any payload byte may change and it still decodes
+            off = r.randrange(8, len(packed) - 2)
+            packed[off] ^= 1 << r.randrange(8)
+        else:
+            # the packed header of ANOTHER archive of the same shape (other names of the same lengths) whose packed
+            # stream happens to have the same length: it decodes, under the old descriptor, to a well-formed header
+            found = None
+            for attempt in range(40):
+                names_b = ["".join(chr(r.randrange(0x400, 0x9FFF)) for _ in range(len(n))) for n in names]
+                base_b = json.loads(json.dumps(base))
+                for op, nb in zip(base_b["ops"], names_b):
+                    op["name"] = nb
+                fsb = SimFS(buffer_size=knobs["bufsize"])
+                with Seams(fs=fsb, blocksize=knobs["block"], memlimit=knobs["chunk"], clock=SimClock(tick=0.001), rand=SimRandom(Rng(seed, "iv"))):
+                    rw.run_write_session(fsb, base_b, "stream", knobs["bufsize"])
+                imgb = fsb.get(rw.SIM_PATH).snapshot()
+                ab = ref7z.read(imgb)
+                if ab.header_packs and (ab.header_packs[-1][1] - ab.header_packs[-1][0]) == len(packed) and len(ab.header_bytes) == len(a.header_bytes):
+                    lob, hib = ab.header_packs[-1]
+                    found = bytearray(imgb[32 + lob:32 + hib])
+                    break
+            if found is None or found == packed:
+                return None
+            packed = found
     except Exception:
         return None
     sess = {"mode": "a", "chain": [{"id": "COPY"}], "password": None, "header": r.pick(["enc", "raw"]), "header_via": "ctor",
             "ops": [{"op": "writestr", "name": "appended-" + gen.gen_component(r, "ascii"), "content": {"hex": bytes(packed).hex(), "len": len(packed), "tex": "hex", "seed": 0}, "as": "bytes"}]}
-    return {"base": [base], "session": sess, "target": "stream", "knobs": knobs, "rng": seed, "directed": "hijack-packed-header"}
+    import zlib as _z
+
+    return {"base": [base], "session": sess, "target": "stream", "knobs": knobs, "rng": seed,
+            "directed": "hijack-packed-header" + ("+header-crc32-is-0" if _z.crc32(a.header_bytes) == 0 else "")}
 
 
 def gen_case(rng: Rng, i: int, tier: str):
@@ -219,6 +278,7 @@ def run_case(case):
     res["probes"].setdefault("accepted_complete_state", 0)
     res["extra"].setdefault("slow_reads_over_budget", 0)
     res["probes"]["directed_header_hijack"] = 1 if case.get("directed") else 0
+    res["probes"]["header_with_crc32_zero"] = 1 if "crc32-is-0" in str(case.get("directed")) else 0
     res["distinct_n"] = n_inside
     res["digest"] = digest_of([final, log])
     cls = "%s|%s|%s" % (case["session"]["mode"], case["target"], case["session"]["header"])
